@@ -117,11 +117,14 @@ func checkString(s string) evid.Outcome {
 	want, accept := model.ParseRef(s)
 	got, err := parser.Parse(s)
 	out := evid.Outcome{}
-	if model.AcceptsDoc(s) != accept {
+	if model.AcceptsDoc(s) != accept || model.AcceptsLoose(s) != accept {
 		// the README spells the terminal classes twice and not alike ("$" in an
-		// identifier, "~ @ ! & ' ; % =" inside a regex value): such a string may
-		// be accepted or rejected; it must be handled cleanly, and when accepted
-		// its rendering must be a fixpoint
+		// identifier, "~ @ ! & ' ; % =" inside a regex value), and its second
+		// grammar lets a parameter follow a regex value without a comma where
+		// the first demands one: such a string may be accepted or rejected; it
+		// must be handled cleanly, and when accepted its rendering must be a
+		// fixpoint. When the lexer's reading accepts it and so does the parser,
+		// everything below applies to it as well - only accept / reject is open.
 		out.Classes = append(out.Classes, "alphabet-left-open")
 		if err == nil && got != nil {
 			r1 := got.String()
@@ -130,7 +133,10 @@ func checkString(s string) evid.Outcome {
 				return fail(out, "fixpoint", "%q is accepted and renders to %q, which does not parse back to itself (%v)", s, r1, err2)
 			}
 		}
-		return out
+		if !(accept && err == nil) {
+			return out
+		}
+		out.Classes = append(out.Classes, "left-open-but-taken-like-the-lexer")
 	}
 	if accept {
 		out.NonTrivial = true
@@ -184,8 +190,11 @@ func checkString(s string) evid.Outcome {
 	}
 	// segment rendering adds up to the route rendering
 	var sb strings.Builder
-	for _, sg := range got.Segments {
-		sb.WriteString(sg.String())
+	if fresh, err := parser.Parse(s); err == nil && fresh != nil {
+		// (a route nobody has rendered yet: the segments are asked first)
+		for _, sg := range fresh.Segments {
+			sb.WriteString(sg.String())
+		}
 	}
 	if sb.String() != canon {
 		return fail(out, "segments", "segment renderings of %q concatenate to %q, want %q", s, sb.String(), canon)
@@ -318,7 +327,14 @@ func TestLongInputs(t *testing.T) {
 // grammatical but meaningless to the router (literal parameter values, several
 // parameters, empty and optional segments anywhere).
 func wildRoute(t *rapid.T) model.Route {
-	ident := rapid.StringMatching(`[a-zA-Z0-9\-._~@!$&'()*+;%=]{1,6}`)
+	// ("$" is in the lexer's alphabet but not in the README's: drawn rarely, so
+	// that most derivations get the full oracle)
+	identNoDollar := rapid.StringMatching(`[a-zA-Z0-9\-._~@!&'()*+;%=]{1,6}`)
+	identDollar := rapid.StringMatching(`[a-zA-Z0-9\-._~@!$&'()*+;%=]{1,6}`)
+	ident := identNoDollar
+	if rapid.IntRange(0, 9).Draw(t, "dollar") == 0 {
+		ident = identDollar
+	}
 	regex := rapid.StringMatching(`[a-zA-Z0-9*\-+._,?()\[\]{} \\|]{1,8}`)
 	n := rapid.IntRange(1, 5).Draw(t, "nsegs")
 	var r model.Route
